@@ -212,12 +212,24 @@ def run_directed(ctx, force, focus, post, reopen_every, tmpdir):
                     pass
 
 
+def big_cases(ctx):
+    """files larger than one directory record can describe (> 0xfffff800 bytes: multi-extent in ISO9660 and Joliet),
+    mastered into a sparse in-memory image and read back under every name"""
+    from harness import bigfile
+    bigfile.big_case(ctx, 'C01', {'joliet': 3}, 0xfffff800 + 5000, 'two-extents')
+    if not ctx.quick:
+        bigfile.big_case(ctx, 'C01', {'rock_ridge': '1.09', 'udf': '2.60'}, 2 * 0xfffff800 + 17, 'three-extents-rr-udf', udf_check=True)
+        bigfile.big_case(ctx, 'C01', {}, 0xfffff800, 'exactly-one-extent')
+
+
 def run(ctx, force=None, focus='C01', n_quick=600, n_thorough=8000, post=None, reopen_every=None, opmix=None, sizes=None, directed=True):
     tmpdir = tempfile.mkdtemp(prefix='verif-%s-' % focus.lower())
     try:
         n = n_quick if ctx.quick else n_thorough
         if directed:
             run_directed(ctx, force, focus, post, reopen_every, tmpdir)
+        if focus == 'C01' and not reopen_every:
+            big_cases(ctx)
         for k in range(n):
             seed = ctx.rng.randrange(2 ** 62)
             rng = random.Random(seed)
@@ -247,6 +259,9 @@ def run(ctx, force=None, focus='C01', n_quick=600, n_thorough=8000, post=None, r
 
 def replay(ctx, obj, focus='C01', post=None):
     r = obj.get('replay', obj)
+    if r.get('kind') == 'bigfile':
+        big_cases(ctx)
+        return [v['signature'] for v in ctx.violations]
     tmpdir = tempfile.mkdtemp(prefix='verif-replay-')
     try:
         c = histcheck.build_case(ctx, random.Random(1), r['cfg'], 0, tmpdir, ops=r['ops'])
